@@ -23,6 +23,22 @@ import (
 	tls "github.com/refraction-networking/utls"
 )
 
+// c11Arrangements returns the number of distinguishable orders of a comma-separated id list
+// (n! divided by the factorials of the multiplicities), saturating at 1e9.
+func c11Arrangements(order string) float64 {
+	ids := strings.Split(order, ",")
+	mult := map[string]int{}
+	r := 1.0
+	for i, id := range ids {
+		mult[id]++
+		r = r * float64(i+1) / float64(mult[id])
+		if r > 1e9 {
+			return 1e9
+		}
+	}
+	return r
+}
+
 var c11Bases = []struct {
 	Name     string
 	ID       quic.QUICID
@@ -377,9 +393,11 @@ func c11Run(t *testing.T, cfg c11Config) c11Outcome {
 			}
 		}
 	}
-	if out.fail == nil && cfg.Randomize && len(expect) >= 4 {
-		// per-dial fresh permutation: three identical orders out of n! >= 24 would mean the
-		// shuffle is not per dial (deterministic seeds differ per dial)
+	if out.fail == nil && cfg.Randomize && len(wireOrders) == 3 && c11Arrangements(wireOrders[0]) >= 40320 {
+		// per-dial fresh permutation: with at least 8! distinguishable arrangements of the id
+		// list, three identical orders by chance have a probability below 1e-9 per configuration
+		// (lists with fewer arrangements - short or repetitive ones - are not judged: three
+		// equal orders are then an ordinary coincidence)
 		if wireOrders[0] == wireOrders[1] && wireOrders[1] == wireOrders[2] {
 			out.fail = explore.Failf("tp-not-reshuffled", "%s: the three dials put the parameters in the same order %s although randomisation is on", cfg.id(), wireOrders[0])
 		}
@@ -506,11 +524,14 @@ func TestVerifC11(t *testing.T) {
 				}
 			}
 			sets := [][]uint64{nil}
-			for i := range present { // every single id, and every pair in thorough
+			for i := range present { // every single id and every pair; every triple in thorough
 				sets = append(sets, []uint64{present[i]})
-				if e.Thorough() {
-					for j := i + 1; j < len(present); j++ {
-						sets = append(sets, []uint64{present[i], present[j]})
+				for j := i + 1; j < len(present); j++ {
+					sets = append(sets, []uint64{present[i], present[j]})
+					if e.Thorough() {
+						for k := j + 1; k < len(present); k++ {
+							sets = append(sets, []uint64{present[i], present[j], present[k]})
+						}
 					}
 				}
 			}
@@ -531,11 +552,11 @@ func TestVerifC11(t *testing.T) {
 			}
 		}
 		// (b) generated parameter lists on two bases
-		maxLen := 2
+		maxLen, listBases := 3, []int{0, 2}
 		if e.Thorough() {
-			maxLen = 3
+			maxLen, listBases = 4, []int{0, 2, 4, 6}
 		}
-		for _, b := range []int{0, 2} {
+		for _, b := range listBases {
 			for _, l := range c11Lists(maxLen) {
 				// (27+31*5 is the exact id of the fake-grease-id atom: a GREASE-shaped id other than the
 				// canonical 27 names exactly that one parameter, not every GREASE parameter)
@@ -549,7 +570,7 @@ func TestVerifC11(t *testing.T) {
 		for i := range cfgs {
 			cfgs[i].Seed = seed + uint64(i)*3
 		}
-		return cfgs, fmt.Sprintf("(a) 7 built-in fingerprints x {no suppression, every single present id (pairs in thorough), absent id, GREASE twice} x randomisation on/off, plus SCID lengths 0/8 with randomisation; (b) every transport parameter list of <= %d entries over %d atoms (standard, fake raw, GREASE with random id and length, fake with a GREASE id, duplicate id, empty initial_source_connection_id) x 5 suppression sets (none, every GREASE, a standard id, the exact id of one GREASE-shaped parameter, an absent GREASE-shaped id) x randomisation on/off on 2 bases; 3 dials on ONE reused spec value each", maxLen, len(c11Atoms))
+		return cfgs, fmt.Sprintf("(a) 7 built-in fingerprints x {no suppression, every single present id and every pair (triples in thorough), absent id, GREASE twice} x randomisation on/off, plus SCID lengths 0/8 with randomisation; (b) every transport parameter list of <= %d entries over %d atoms (standard, fake raw, GREASE with random id and length, fake with a GREASE id, duplicate id, empty initial_source_connection_id) x 5 suppression sets (none, every GREASE, a standard id, the exact id of one GREASE-shaped parameter, an absent GREASE-shaped id) x randomisation on/off on %d bases; 3 dials on ONE reused spec value each", maxLen, len(c11Atoms), len(listBases))
 	}
 	wirePart.Run = func(e explore.Env) *explore.Report {
 		cfgs, rule := mk(e)
